@@ -43,7 +43,7 @@ fn shape(n: usize, parent: &[u32], kind: &[u32]) -> Shape {
     s
 }
 
-pub const NSHAPES: u32 = 14;
+pub const NSHAPES: u32 = 15;
 
 pub fn shape_by_index(ix: u32) -> Shape {
     let mut s = shape_raw(ix);
@@ -80,6 +80,9 @@ fn shape_raw(ix: u32) -> Shape {
         // 13: parallel whose first region holds a compound child with a nested final (a final two levels below the region does not
         //     make the region final), second region with a direct final
         13 => shape(10, &[0, 0, 1, 2, 3, 4, 4, 2, 7, 7, 1], &[0, 0, 1, 0, 0, 0, 2, 0, 0, 2, 0]),
+        // 14: deep history of a compound state whose child is a parallel with two compound regions: a recorded value names one atomic
+        //     state per region, and restoring it must not add the default children of the regions
+        14 => { let mut s = shape(11, &[0, 0, 1, 2, 3, 4, 4, 3, 7, 7, 2, 1], &[0, 0, 0, 1, 0, 0, 0, 0, 0, 0, 4, 0]); s.hdef[10] = 3; s }
         // 11: parallel nested in a compound region of a parallel, deep history at the outer compound
         _ => { let mut s = shape(11, &[0, 0, 1, 2, 3, 4, 4, 3, 2, 8, 2, 1], &[0, 0, 0, 1, 1, 0, 0, 0, 0, 0, 4, 0]); s.hdef[10] = 3; s }
     }
